@@ -132,7 +132,10 @@ _counter = [0]
 
 def class_src(si, fi, d, name):
     base = "ImmutableStructure" if si else "Structure"
-    return "class %s(%s):\n    f = %s\n    _required = []\n" % (name, base, field_src(d, "immutable=True" if fi else ""))
+    # g: a second, optional field that is never populated (assignment to an ABSENT attribute of an immutable
+    # instance is a different path through __setattr__/Field.__set__ than re-assignment of a populated one)
+    return "class %s(%s):\n    f = %s\n    g = Integer()\n    _required = []\n" % (
+        name, base, field_src(d, "immutable=True" if fi else ""))
 
 
 def realize(si, fi, d):
@@ -763,6 +766,31 @@ def explore(si, fi, d, rep):
             z = y
         if snapshot(z, tw) != snap0 or snapshot(y, tw) != snap0:
             findings.append(("C04/" + label, label + " changed an immutable instance", dict(base_replay, kind="op", op=label)))
+    # (oracle only) further assignment paths on an immutable STRUCTURE: an absent optional field, an
+    # undeclared attribute (additional properties are allowed by default), None, deletion of the absent field
+    if si:
+        def set_absent(y):
+            y.g = 7
+        def set_extra(y):
+            y.zz_extra = 7
+        def set_none(y):
+            y.f = None
+        def set_absent_none_then_value(y):
+            y.g = None
+            y.g = 7
+        for label, fn in (("setattr-absent-field", set_absent), ("setattr-undeclared", set_extra),
+                          ("setattr-none", set_none), ("setattr-absent-none-then-value", set_absent_none_then_value)):
+            y, _ = make(si, fi, d)
+            tw = twin
+            try:
+                fn(y)
+            except Exception:  # noqa
+                pass
+            changed = snapshot(y, tw) != snap0 or "g" in y.__dict__ or "zz_extra" in y.__dict__
+            rep.stat("instance-ops", "%s:%s" % (label, "CHANGED" if changed else "unchanged"))
+            if changed:
+                findings.append(("C04/" + label, label + " changed an immutable structure",
+                                 dict(base_replay, kind="op", op=label)))
     # later mutation of the constructor arguments
     y, arg = make(si, fi, d)
     tw = twin
@@ -1139,6 +1167,15 @@ def replay(obj):
             elif op == "copy.copy+setattr":
                 x = copy.copy(x)
                 x.f = newval
+            elif op == "setattr-absent-field":
+                x.g = 7
+            elif op == "setattr-undeclared":
+                x.zz_extra = 7
+            elif op == "setattr-none":
+                x.f = None
+            elif op == "setattr-absent-none-then-value":
+                x.g = None
+                x.g = 7
             print("operation:", op, "returned")
         except Exception as e:  # noqa
             print("operation:", op, "raised", type(e).__name__, e)
@@ -1150,6 +1187,9 @@ def replay(obj):
             deep_mutate(reach(x, tuple((a, i) for a, i in obj["apath"])), skip_immutable=True)
     snap1 = snapshot(x, twin)
     print("instance :", x)
+    if kind == "op" and ("g" in x.__dict__ or "zz_extra" in x.__dict__):
+        print("FAILS    : the immutable instance gained an attribute:", sorted(k for k in x.__dict__ if k in ("g", "zz_extra")))
+        return 1
     if snap1 != snap0:
         print("FAILS    : observable state changed (required: unchanged)")
         for a, b in zip(snap0, snap1):
